@@ -402,7 +402,7 @@ func c20Gen(c *core.Ctx) {
 			}
 		}
 	}
-	nr := c.Pick(5000, 500000)
+	nr := c.Pick(5000, 2000000)
 	for i := 0; i < nr; i++ {
 		if !c.Mine() {
 			continue
